@@ -210,7 +210,7 @@ def run(tier, seed):
             continue
         judged += 1
         sigs, detail = signature(ref, nb)
-        if sigs and name.startswith('upgrade45') and declared_key(nb) == 'nb5':
+        if sigs and (name.startswith('upgrade45') or 'one_sided_id' in name) and declared_key(nb) == 'nb5':
             # one side was re-saved as 4.5 (ids), the other is still id-less: cells the id-less side replaced or inserted
             # cannot carry ids.  Inputs of mixed id regime are not in the property's quantifier; counted, not judged.
             fixed = copy.deepcopy(nb)
